@@ -471,7 +471,7 @@ func caseOf1(c *carrier, v any, env map[string]string, opts ld.Opts) *ld.Case {
 func runTyped(s *core.Shard, leaves []ref.SchemaLeaf, caseNo *int) {
 	// (key variant, origin): quick = default keys in the main file; thorough adds
 	// unusual resource/map keys and the attribute arriving through an override file
-	variants := [][2]int{{0, 0}}
+	variants := [][2]int{{0, 0}, {1, 0}}
 	if s.Thorough() {
 		variants = [][2]int{{0, 0}, {1, 0}, {0, 1}}
 	}
